@@ -117,7 +117,7 @@ namespace OpenMEEG {
         const double y2 = Y2.norm();
         const double y3 = Y3.norm();
         const double d = det(Y1,Y2,Y3);
-        return (fabs(d)<1e-10) ? 0.0 : 2*atan2(d,(y1*y2*y3+y1*dotprod(Y2,Y3)+y2*dotprod(Y3,Y1)+y3*dotprod(Y1,Y2)));
+        return (fabs(d)<=1e-10*(y1*y2*y3)) ? 0.0 : 2*atan2(d,(y1*y2*y3+y1*dotprod(Y2,Y3)+y2*dotprod(Y3,Y1)+y3*dotprod(Y1,Y2)));
     }
 
     inline std::istream& operator>>(std::istream& is,Vect3& v) {
